@@ -766,6 +766,12 @@ def wrapper_gives_up_only_at_reviewed_sites(prog, rep, R):
 
 
 def check_c06(prog, rep, tier, cfg):
+    # C06.l — whether a comment is the first thing on its line (a layout fact that survives by design) is read off the text in front of
+    # the comment — `input[..offset]` contains a line break, or nothing precedes — and not off a flag carried from token to token,
+    # which goes stale where gaps have no blanks (shared with C13.d)
+    import lexer_rules as _lx6
+    from engine import AliasReport as _AR6
+    _lx6.c13d(prog, _AR6(rep, [("C13.d", r".", "C06.l")]))
     wrapper_gives_up_only_at_reviewed_sites(prog, rep, "C06.i")
     format_line_declines_only_by_line_type(prog, rep, "C06.k")
     consolidator_commits_atomically(prog, rep, "C06.j")
